@@ -6,6 +6,7 @@ import (
 	"crypto/rand"
 	"crypto/x509"
 	"crypto/x509/pkix"
+	"encoding/asn1"
 	"fmt"
 	"io"
 	"math/big"
@@ -34,6 +35,8 @@ type c15Obj struct {
 	tbs    []byte // the original decoded triple
 	alg    x509.SignatureAlgorithm
 	sig    []byte
+	oid    asn1.ObjectIdentifier // crl1: the outer algorithm of the original as the deprecated parser reads it
+	legacy bool                  // crl1: the last probe was accepted through the deprecated parser / check pair only
 }
 
 type c15Run struct {
@@ -98,6 +101,10 @@ func execC15Bubble(p *sim.Program, c *sim.Ctx) {
 			r.opCSR(i, op)
 		case "crl":
 			r.opCRL(i, op)
+		case "crl1":
+			r.opCRL1(i, op)
+		case "sig":
+			r.opSig(i, op)
 		case "alter", "alterall", "trunc":
 			r.opFault(i, op)
 		}
